@@ -6,9 +6,17 @@
 // case line:  F<0|1> N=<name0>,<name1>,... <op> <op> ...
 //   S:i:t:hex           complete save          K:i:t:hex:p0,p1,..  crashed save (per-sector progress, - = none)
 //   P:i:hex             raw file content       L:i:now  load       G:now  gc        X:i  remove
+//   V:hexcookie         session_sid::valid_sid                      Q:now:hexcookie  session_sid::load (valid_sid + load + expiry re-check)
 // answer: one token per op:  <result>{i=len.crc32,...}   (directory summary after the op, crc32 by own bitwise code)
 #include "session_posix_file_storage.h"
 #include <cppcms/session_storage.h>
+#define private public   // session_sid::valid_sid is private; the harness calls the real one
+#include <cppcms/session_sid.h>
+#undef private
+#include <cppcms/session_interface.h>
+#include <cppcms/session_pool.h>
+#include <cppcms/json.h>
+#include <set>
 #include <cppcms/cppcms_error.h>
 #include <sys/syscall.h>
 #include <sys/stat.h>
@@ -128,6 +136,15 @@ static std::vector<std::string> splitc(std::string const &s, char c)
 	return r;
 }
 
+// session_sid::load takes the cookie from a session_interface: a cookie jar that answers with the cookie of the case
+class jar : public cppcms::session_interface_cookie_adapter {
+public:
+	std::string value;
+	virtual void set_cookie(cppcms::http::cookie const &) {}
+	virtual std::string get_session_cookie(std::string const &) { return value; }
+	virtual std::set<std::string> get_cookie_names() { return std::set<std::string>(); }
+};
+
 int main()
 {
 	char const *base = getenv("C18_DIR");
@@ -135,6 +152,15 @@ int main()
 	std::vector<char> tb(tmpl.begin(), tmpl.end()); tb.push_back(0);
 	if(!mkdtemp(&tb[0])) { perror("mkdtemp"); return 2; }
 	std::string dir = &tb[0];
+	// session_interface wants a pool with some backend before it hands out its cookie; this one lives in a directory of its own and is never used
+	cppcms::json::value cfg;
+	cfg["session"]["location"] = "server";
+	cfg["session"]["expire"] = "renew";
+	cfg["session"]["timeout"] = 1000;
+	cfg["session"]["server"]["storage"] = "files";
+	cfg["session"]["server"]["dir"] = dir + ".pool";
+	cppcms::session_pool pool(cfg);
+	pool.init();
 	std::string line;
 	while(std::getline(std::cin, line)) {
 		std::vector<std::string> v = split(line);
@@ -163,6 +189,14 @@ int main()
 					for(size_t j = 0; j < g_w.size(); j++)
 						out << (j ? "," : "") << g_w[j].off << '+' << g_w[j].data.size() << '+' << hex8(crc_own(g_w[j].data));
 					out << ']';
+					{
+						// the crash-state construction itself is checked against the real save: with every sector fully
+						// written it must reproduce the file the real save left behind
+						uint64_t tot = 0; for(size_t j = 0; j < g_w.size(); j++) tot += g_w[j].data.size();
+						std::string after; slurp(path, after);
+						std::vector<uint64_t> full((std::max<size_t>(after.size(), F.size()) + 511) / 512 + 1, tot);
+						if(materialise(F, g_w, full) != after) out << "MATERIALISE-MISMATCH";
+					}
 					if(op == 'K') {
 						std::vector<uint64_t> ps;
 						if(a[4] != "-") { std::vector<std::string> pv = splitc(a[4], ','); for(size_t j = 0; j < pv.size(); j++) ps.push_back(strtoull(pv[j].c_str(), 0, 10)); }
@@ -186,6 +220,21 @@ int main()
 					fact.gc_job();
 					out << 'G';
 				}
+				else if(op == 'V' && a.size() == 2) {
+					cppcms::sessions::session_sid sid(st);
+					std::string id = "stale";
+					if(sid.valid_sid(unhex(a[1]), id)) out << "V=" << hex(id);
+					else out << "V=none";
+				}
+				else if(op == 'Q' && a.size() == 3) {
+					g_now = (time_t)strtoll(a[1].c_str(), 0, 10);
+					jar j; j.value = unhex(a[2]);
+					cppcms::session_interface si(pool, j);
+					cppcms::sessions::session_sid sid(st);
+					time_t t = 0; std::string d = "stale";
+					if(sid.load(si, d, t)) out << "Q=" << (long long)t << '.' << hex(d);
+					else out << "Q=none";
+				}
 				else if(op == 'X' && a.size() == 2) {
 					size_t i = atoi(a[1].c_str()); if(i >= names.size() || !valid32(names[i])) throw 1;
 					st->remove(names[i]);
@@ -207,5 +256,7 @@ int main()
 	}
 	clean_dir(dir);
 	::rmdir(dir.c_str());
+	clean_dir(dir + ".pool");
+	::rmdir((dir + ".pool").c_str());
 	return 0;
 }
